@@ -78,6 +78,37 @@ class _Timeout(BaseException):
     pass
 
 
+def outcome_with_debug(g, env, inp, debug):
+    """(class, loc) of parse_string on a fresh build, optionally with quiet debug actions set on every node (individually, before
+    the first parse): diagnostics must not change what is an error stop"""
+    import pyparsing as pp
+
+    def run():
+        root = build.Builder(env).build_all(g)
+        if debug:
+            quiet = lambda *a: None
+            nodes = list(root.visit_all())
+            inner = set()
+            if debug == "outer":          # every node except the direct members of a sequence (those are what streamline() flattens)
+                for n in nodes:
+                    if isinstance(n, pp.And):
+                        inner.update(id(c) for c in n.exprs)
+            for node in nodes:
+                if id(node) not in inner:
+                    node.set_debug_actions(quiet, quiet, quiet)
+        try:
+            root.parse_string(inp)
+            return ("ok",)
+        except pp.ParseBaseException as e:
+            return (type(e).__name__, e.loc)
+        except RecursionError:
+            return ("div",)
+        except Exception as e:
+            return ("other", type(e).__name__)
+    from tools.props.c04 import guarded
+    return guarded(run, 0.75)
+
+
 def oracle_case(g, env, inp, mode=("none",)):
     """returns (n_fatal_constructed, failure-or-None); a parse that spins (nullable repetition body) is skipped"""
     import signal
@@ -197,6 +228,30 @@ def correspond(ctx):
         if bad:
             ctx.violation("swallowed-packrat:%r|%r" % (g, inp), "%r on %r with packrat: %s" % (g, inp, bad),
                           {"kind": "oracle", "grammar": g, "env": env, "input": inp, "mode": ["packrat", 128]})
+    ndbg = 0
+    for (g, env, inp) in cases[::3]:
+        try:
+            a, b, c = (outcome_with_debug(g, env, inp, d) for d in (False, "all", "outer"))
+        except build.Unbuildable:
+            continue
+        if any(x[0] in ("timeout", "div") for x in (a, b, c)):
+            continue
+        ndbg += 1
+        ctx.case("oracle-debug:%r|%r" % (g, inp), nontrivial=a[0] in ("ParseSyntaxException", "ParseFatalException"), agreed=True)
+        FAT = ("ParseSyntaxException", "ParseFatalException")
+        fat = lambda o: o if o[0] in FAT else None          # C07 is about fatal exceptions: where an ordinary failure is reported is not its business
+        if fat(a) != fat(c):
+            ctx.violation("debug-changes-outcome:%r|%r" % (g, inp),
+                          "%r on %r: %r without debug actions, %r with quiet debug actions on every node that is not a member of a sequence" % (g, inp, a, c),
+                          {"kind": "debug", "grammar": g, "env": env, "input": inp, "which": "outer"})
+        elif fat(a) != fat(b):
+            # F-07b: streamline() does not flatten a nested sequence that has debug set, so the `-` of `a - b + c` (built as
+            # And([And([And([a, _ErrorStop]), b]), c])) stays last in its own And and stops nothing
+            lost = a[0] == "ParseSyntaxException" and b[0] != "ParseSyntaxException"
+            ctx.violation("debug-changes-outcome:error-stop-lost-in-unflattened-sequence" if lost else "debug-changes-outcome-all:%r|%r" % (g, inp),
+                          "%r on %r: %r without debug actions, %r with quiet debug actions on every node" % (g, inp, a, b),
+                          {"kind": "debug", "grammar": g, "env": env, "input": inp, "which": "all"})
+    ctx.stat("oracle_debug_cases", ndbg)
     nlr = 0
     for (g, env, inp) in lr_cases:
         for mode in (("lr", None), ("lr", 1)):
@@ -243,6 +298,11 @@ def _tuplify(x):
 
 def replay(ctx, obj):
     r = obj["replay"]
+    if r.get("kind") == "debug":
+        g, env = _tuplify(r["grammar"]), {int(k): _tuplify(v) for k, v in (r.get("env") or {}).items()}
+        a, b = outcome_with_debug(g, env, r["input"], False), outcome_with_debug(g, env, r["input"], r.get("which") or "all")
+        print("without debug:", a, " with debug:", b)
+        return a == b
     if r.get("kind") == "oracle":
         g, env = _tuplify(r["grammar"]), {int(k): _tuplify(v) for k, v in (r.get("env") or {}).items()}
         k, bad = oracle_case(g, env, r["input"], _tuplify(r.get("mode") or ["none"]))
